@@ -8,6 +8,8 @@ SIGS = ["-", "-", "S number / _", "S any / number", "S / string", "S any expref 
         "S aan / _", "S ans / _", "S aany / aan", "S uns / uns", "S uao / _", "S aaa / _", "S as / ans", "S / aan"]
 CALLS = ["%s(@)", "%s(a)", "%s(a, b)", "%s(`1`, 'x', `2`)", "%s(a, &b)", "%s(&a, @)", "%s()", "%s(b, b)", "%s(@, @, @)", "%s(a, b, c)",
          "[%s(a), %s(b)]", "c[*].%s(@)", "%s(%s(a))", "%s(a) || 'fallback'", "%s(`{\"x\": 1}`, `{\"y\": 2}`, `1`)", "%s('s', a, b)",
+         "missing | %s(@)", "missing.%s(@)", "a.missing.%s(@, `1`)", "missing | %s(`1`)", "`null` | %s(@)", "missing[0].%s(@)", "c[5] | %s(@)", "missing || %s(a)",
+         "missing && %s(a)", "a.missing | [%s(@)]", "{r: missing | %s(@)}", "c[*].missing.%s(@)", "[missing | %s(@), a]",
          "%s(`[[1,2],[\"a\"]]`)", "%s(`[1,\"a\",2]`)", "%s(`[[1],[2,3],[]]`)", "%s(`[]`)", "%s(`[[]]`)", "%s(`[1,[2]]`)", "%s(`[[1],2]`)", "%s(c)", "%s(`[\"a\",1]`, `[[1],[\"b\"]]`)",
          "%s(`[1,2]`, `[[1],[2]]`, `[[3],[\"x\"]]`)", "%s(`[null,1]`)", "%s(`[[1],null]`)", "%s(`1`, `\"s\"`, `true`)", "%s(`{}`)", "%s(`[1,2,3]`)", "%s(`[\"a\",\"b\"]`, `[1,\"x\",[1]]`)"]
 DOCS = [{"a": -3, "b": "s", "c": [1, [2], "x"]}, {"a": [3, 1, 2], "b": {"k": 1}, "c": []}, {"a": {"x": 1}, "b": {"y": 2}, "c": [{"a": 1}]}, None, [1, 2]]
